@@ -81,3 +81,29 @@ Definition k_ctor (s : shape) (depth : Z) (init : list Z) (gran : option Z) : li
   if negb (c =? 0) then [c] else
   let g := wsig_ctor s gran in
   if negb (g =? 0) then [g] else [0; wsig_enw s gran; ceil_log2 depth].
+
+(* ================================================================== appended: second generation of wrappers *)
+From V.Model Require Export RtlilSem.
+
+(* k_mem2: the configuration is given as the constructor arguments (row shape-like, granularities); widths, enable
+   widths and the hypothesis ev_ok are computed here.
+   flags bit 0: run the array SPECIFICATION machine instead of the simulator model;
+         bit 1: after every event all rows are read through mem.data[i] as well (four per integer).
+   Answer: [1 iff every event satisfies ev_ok] ++ per event (read data [++ rows]) ++ final rows. *)
+Definition enc_ev (rr : bool) (md : memd) (st : mstate) : list Z :=
+  enc_state md st :: (if rr then enc_rows md st else []).
+Definition k_mem2 (flags : Z) (r : rowshape) (depth : Z) (wps : list (Z * option Z)) (rps : list rport)
+                  (dflt : Z) (init : list Z) (evs : list Z) : list Z :=
+  let md := mk_md r depth wps rps in
+  let es := dec_evs evs in
+  let st0 := init_state_d md dflt init in
+  let tr := if Z.testbit flags 0 then spec_trace md st0 es else mem_trace md st0 es in
+  b2l (forallb (ev_ok md) es) :: flat_map (enc_ev (Z.testbit flags 1) md) tr ++ enc_rows md (last tr st0).
+
+(* the design converted by back.rtlil, read back by harness/rtlil_read.py, run under the RTLIL semantics of
+   Model/RtlilSem.v ($memrd_v2 / $memwr_v2 / $meminit_v2 included): one row (status, observations) per settle *)
+(* skip: number of leading integers not compared (the rows before the end of the preamble event, while the data of a
+   clocked read port is still its undefined INIT_VALUE) *)
+Definition k_rtl (skip : Z) (d : doc) (obs : list (option (list nat * nat * Z))) (init_ins : list (nat * Z))
+                 (stim : list (list (nat * Z))) : list Z :=
+  skipn (Z.to_nat skip) (run d obs init_ins stim).
